@@ -1,4 +1,5 @@
 Require Extraction.
 Require Import ExtrOcamlBasic.
-From Herc Require Import Base.Conv File.Model File.Spec.
-Extraction "c03_model.ml" conv_anchor new_file update len flatten arr_update hist sumv wfb validb in_rangeb mark_okb must_panicb is_mark.
+From Herc Require Import Base.Conv File.Model File.Spec File.Rle.
+Extraction "c03_model.ml" conv_anchor new_file update len flatten arr_update hist sumv wfb validb in_rangeb mark_okb must_panicb is_mark
+  rle_update rle_flatten rle_norm rle_validb rle_in_rangeb rle_must_panicb rle_len rle_slice runs_okb.
